@@ -10,7 +10,7 @@
    (5) the message-based (WebRTC) variant, (6) the fallback-name -> main-protocol mapping. *)
 From Coq Require Import List NArith Bool.
 From V.gen Require Consts.
-From V.C03 Require Import Model Msg Proofs UviProofs LsProofs WebRtc WebRtcProofs Fallback.
+From V.C03 Require Import Model Msg Proofs UviProofs LsProofs WebRtc WebRtcProofs WGroup WGroupProofs Fallback.
 From V.C03 Require Import MsgRef MsgProofs MsgInv Chan Dir SimD SimL SimSys BytesThm LazyThm.
 From V.C03 Require Import Work Work2 Live Timed TimedProofs Survivor NegOps LazyBytes Compose Sub SubProofs.
 From V.C03 Require Import Peer PeerTie RefDiff.
@@ -325,6 +325,60 @@ Theorem C03_webrtc_session_agreement :
   ws_proposed r = take_until sup (p :: fs).
 Proof. exact webrtc_session_agreement. Qed.
 Print Assumptions C03_webrtc_session_agreement.
+
+(* ---- layer 5b: the grouping of the listener's frames into data-channel messages is irrelevant *)
+(* A legal reply ([header echo +] `na` / confirmation of a valid name) delivered to the dialer
+   under ANY grouping of its frames into messages (script gs: one frame per message, all in one,
+   empty messages in between; excluded only: an empty message in front of the header echo):
+   every register_response call but the last answers NotReady - the handshake state is carried
+   from message to message -, and the last call ends in exactly the state and the verdict of the
+   reply delivered as ONE message (= the concatenation). *)
+Theorem C03_webrtc_grouping_irrelevant :
+  forall cur (first : bool) v gs,
+  legal_verdict v -> (first = true -> hd 1 gs <> 0) ->
+  let msgs := group gs (reply_frames first v) in
+  let whole := webrtc_dialer_register (S (length (concat (reply_frames first v)))) cur (negb first)
+                                      (concat (reply_frames first v)) in
+  wd_feed cur (negb first) msgs =
+  (fst whole, repeat WDNotReady (length msgs - 1) ++ [snd whole]).
+Proof. exact webrtc_grouping_irrelevant. Qed.
+Print Assumptions C03_webrtc_grouping_irrelevant.
+
+(* what that verdict is: Rejected on na, Succeeded on the confirmation of the current name *)
+Theorem C03_webrtc_whole_reply_verdict :
+  forall cur (first : bool) v, legal_verdict v ->
+  webrtc_dialer_register (S (length (concat (reply_frames first v)))) cur (negb first)
+                         (concat (reply_frames first v)) = (true, verdict_of cur v).
+Proof. exact register_whole. Qed.
+Print Assumptions C03_webrtc_whole_reply_verdict.
+
+(* the whole session (real listener model, real dialer model, every reply split into its frames
+   and regrouped by the case's scripts): for well-formed names and EVERY grouping the trace of the
+   model is the ground-truth trace that the oracle of the session mode (Glue.ok4) demands: the
+   listener accepts iff the proposed name is in its list (first position), the dialer then ends
+   Succeeded with that very name after NotReady answers only, otherwise Rejected and the next
+   fallback is proposed in order *)
+Theorem C03_webrtc_grouped_session_spec :
+  forall p fs ls gss,
+  forallb Glue.wfw_b (p :: fs) = true -> Glue.clean4 gss = true ->
+  Glue.propose_msg p true = Some (hdr_part ++ msg_part (MProto p)) /\
+  [1; 0] ++ Glue.enc_bytes (hdr_part ++ msg_part (MProto p)) ++
+    Glue.run4 (tag_from 0 ls) fs p (hdr_part ++ msg_part (MProto p)) false false gss =
+  1 :: Glue.spec4_trace p fs ls gss.
+Proof. exact webrtc_grouped_session_spec. Qed.
+Print Assumptions C03_webrtc_grouped_session_spec.
+
+(* hence the oracle accepts the model's session trace, and nothing else on that domain *)
+Theorem C03_webrtc_session_oracle_accepts_model :
+  forall p fs ls gss tb,
+  forallb Glue.wfw_b (p :: fs) = true -> Glue.clean4 gss = true ->
+  (match Glue.propose_msg p true with
+   | Some m => [1; 0] ++ Glue.enc_bytes m ++ Glue.run4 (tag_from 0 ls) fs p m false false gss
+   | None => [1; 1]
+   end) = 1 :: tb ->
+  Glue.ok4 p fs ls gss tb = true /\ tb = Glue.spec4_trace p fs ls gss.
+Proof. exact webrtc_session_oracle_accepts_model. Qed.
+Print Assumptions C03_webrtc_session_oracle_accepts_model.
 
 (* ---- layer 6: fallback name -> main protocol (ProtocolSet::report_substream_open) *)
 Theorem C03_fallback_reported_to_main :
